@@ -252,8 +252,9 @@ Definition manager_wake (e : exec) : exec :=
 (* What the code hands to wait() is the sentinel list built when the manager ENTERED
    wait_result_broken_or_wakeup; [watch] is that list.  [manager_wake] above is the case watch = procs e,
    i.e. no process was added to _processes since the manager went to sleep.  A submit that has to respawn
-   workers (they exited on idle time-out) wakes the manager up BEFORE it spawns them, so the manager can be
-   back in wait() with a list that lacks the new workers: finding F28 (C10_stale_watch_refuted). *)
+   workers (they exited on idle time-out) wakes the manager up BEFORE it spawns them, so the manager could be
+   back in wait() with a list that lacks the new workers: that was the behaviour before fix F38
+   (C10_stale_watch_refuted); since the fix submit wakes the manager up once more after spawning (M10c). *)
 Definition manager_wake_watch (watch : list nat) (e : exec) : exec :=
   match mgr e with
   | AtWait =>
